@@ -57,6 +57,25 @@ func pkcs7decode(buf []byte, _ int) []byte {
 }
 
 // encryptOverhead returns the maximum possible overhead of encryption by version
+// validPKCS7Padding reports whether buf ends in well-formed PKCS7 padding for
+// the given block size, i.e. whether pkcs7decode can be applied to it.
+func validPKCS7Padding(buf []byte, blockSize int) bool {
+	n := len(buf)
+	if n == 0 || n%blockSize != 0 {
+		return false
+	}
+	pad := int(buf[n-1])
+	if pad < 1 || pad > blockSize || pad > n {
+		return false
+	}
+	for _, b := range buf[n-pad:] {
+		if int(b) != pad {
+			return false
+		}
+	}
+	return true
+}
+
 func encryptOverhead(vsn encryptionVersion) int {
 	switch vsn {
 	case 0:
@@ -191,6 +210,12 @@ func decryptPayload(keys [][]byte, msg []byte, data []byte) ([]byte, error) {
 		if err == nil {
 			// Remove the PKCS7 padding for vsn 0
 			if vsn == 0 {
+				// The version byte is not covered by the authentication
+				// tag: a version 1 message relabelled as version 0 gets
+				// here with a plaintext that was never padded.
+				if !validPKCS7Padding(plain, aes.BlockSize) {
+					return nil, fmt.Errorf("invalid padding in version 0 message")
+				}
 				return pkcs7decode(plain, aes.BlockSize), nil
 			} else {
 				return plain, nil
